@@ -22,7 +22,7 @@ from twisted.web.template import Tag
 from pydoctor import stanutils, node2stan, model
 from docutils import nodes, utils
 
-ILLEGAL = re.compile('[^\x09\x0a\x0d\x20-퟿-�\U00010000-\U0010ffff]')
+ILLEGAL = re.compile('[^\\x09\\x0a\\x0d\\x20-\\ud7ff\\ue000-\\ufffd\\U00010000-\\U0010ffff]')
 
 
 def mk_stan(s):
@@ -127,10 +127,16 @@ def depr_call(package, replacement):
 def run_case(case):
     fn, arg = case
     if fn == 0:
+        from twisted.web.error import FlattenerError
         try:
             html = stanutils.flatten(mk_stan(arg))
         except UnicodeEncodeError:
             return [0]
+        except FlattenerError as e:
+            # flattenString wraps the exception raised while flattening
+            if isinstance(e._exception, UnicodeEncodeError):
+                return [0]
+            raise
         clean = ILLEGAL.sub('', html)
         return [1, html, expat_forest('<c10root>' + clean + '</c10root>')]
     if fn == 3:
@@ -183,6 +189,8 @@ def run_case(case):
             seen.append(doc)
             return real(obj, doc, source, markup=markup, section=section)
         epydoc2stan.parse_docstring = rec
+        old_name = f.name
+        f.name = name
         try:
             try:
                 v, text = deprecate.deprecatedToUsefulText(f, name, depr_call(package, repl))
@@ -190,17 +198,18 @@ def run_case(case):
                 if 'Invalid package name' in str(e):
                     return [0]
                 raise
-            f.name_saved = f.name
             deprecate.getDeprecated(f, [depr_call(package, repl)])
         finally:
             epydoc2stan.parse_docstring = real
+            f.name = old_name
         html = ''
         for p in f.extra_info:
-            try:
-                html += stanutils.flatten(epydoc2stan.safe_to_stan(p, f.docstring_linker, f, fallback=epydoc2stan.ParsedDocstring if False else (lambda *a, **k: 'FALLBACK'), section='deprecation text'))
-            except Exception as e:  # noqa
-                html += '<EXC>%s</EXC>' % type(e).__name__
-        return [1, text, seen[0] if seen else None, v, html, expat_forest('<c10root>' + ILLEGAL.sub('', html) + '</c10root>')]
+            html += stanutils.flatten(epydoc2stan.safe_to_stan(
+                p, f.docstring_linker, f, fallback=lambda errs, doc, ctx_: Tag('fallback'), report=False,
+                section='deprecation text'))
+        f.extra_info = []
+        return [1, text, seen[0] if seen else None, v, html,
+                expat_forest('<c10root>' + ILLEGAL.sub('', html) + '</c10root>')]
     if fn == 14:
         text, classes = arg
         doc = utils.new_document('c10')
@@ -228,6 +237,8 @@ def run_case(case):
 
 if __name__ == '__main__':
     cases = json.load(sys.stdin)
+    real_stdout = sys.stdout
+    sys.stdout = sys.stderr          # pydoctor reports on stdout
     out = []
     for c in cases:
         try:
@@ -235,4 +246,4 @@ if __name__ == '__main__':
         except Exception as e:  # noqa
             import traceback
             out.append(['exc', type(e).__name__, traceback.format_exc()[-600:]])
-    json.dump(out, sys.stdout)
+    json.dump(out, real_stdout)
